@@ -557,6 +557,13 @@ def citedWebentities (s : State) (prefixes : List Bytes) (out : Bool) : Except E
       let head := if out then c.out else c.inn
       if head ≠ 0 then (s.deduped head).map (fun t => s.windupWe t) else []))).map sortDedup
 
+/-- `get_webentity_indegree / outdegree / degree`: sizes of the citing / cited sets (the `None` member counts) -/
+def webentityDegrees (s : State) (prefixes : List Bytes) : Except Err (List Nat) :=
+  match s.citedWebentities prefixes false, s.citedWebentities prefixes true with
+  | .ok i, .ok o => .ok [i.length, o.length, i.length + o.length]
+  | .error e, _ => .error e
+  | _, .error e => .error e
+
 /-- `get_page_links(lru, include_inbound, include_internal, include_outbound)` -/
 def pageLinks (s : State) (lru : Bytes) (incIn incInt incOut : Bool) : List PageLink :=
   match s.lruNode (lruIter lru) with
